@@ -208,6 +208,9 @@ class NICObservation(AbstractObservation, discriminator="network-interface"):
             obs["NMNE"]["outbound"] = self._categorise_mne_count(outbound_count - self.nmne_outbound_last_step)
             self.nmne_inbound_last_step = inbound_count
             self.nmne_outbound_last_step = outbound_count
+        elif self.include_nmne:
+            # the space declares NMNE whenever include_nmne is set; with capturing switched off nothing is counted
+            obs["NMNE"] = {"inbound": 0, "outbound": 0}
         return obs
 
     @property
